@@ -56,3 +56,102 @@ Print Assumptions c10_descriptor_framed.
 Print Assumptions c10_address_space.
 Print Assumptions c10_address_space_refuses.
 Print Assumptions c10_template.
+
+(* ------------------------------------------------------------------------------------------------------------------
+   The caller's values at the specification's offsets, for every descriptor kind.
+   [desc_in_range d]: d's arguments fit their Rust types (bool / u8 / u16 / u32 / u64 / the constructors' enums).
+   [desc_to_sx d]: d in the exchange vocabulary (codes 20..24), inverse of the vocabulary's parser [desc_of_sx].
+   [values_of d]: the caller's arguments named by the specification's fields (address spaces: general flags 0x0C,
+   type specific flags as the constructor sets them, granularity 0, length = max - min + 1, bus numbers untranslated).
+   [desc_decode], [decode_item]: the Spec decoder of Spec/DescDecodeS.v, reading each field at its ACPI 6.5 6.4 offset. *)
+From ACPI Require Import Spec.DescDecodeS Proofs.DescValP.
+
+(* whatever in-range arguments the caller passes, the model's bytes for a descriptor are the reference encoding the Spec
+   layer writes from ACPI 6.5 6.4 for the same arguments; where the reference has no encoding (an address range whose
+   size max - min + 1 does not fit the field, or max < min) the model refuses, and nowhere else *)
+Theorem c10_descriptor_is_reference :
+  forall d, desc_in_range d -> enc_desc d = ref_desc (desc_to_sx d).
+Proof. exact desc_is_reference. Qed.
+
+(* the exchange form used above is the one the vocabulary's own parser maps back to d *)
+Theorem c10_descriptor_exchange_form :
+  forall d, desc_of_sx (desc_to_sx d) = Some d.
+Proof. exact desc_of_to_sx. Qed.
+
+(* every emitted descriptor is one item for the Spec walker (its length field covers exactly its payload), and the Spec
+   decoder, reading that payload at the specification's offsets, returns exactly the caller's values *)
+Theorem c10_descriptor_values_decode :
+  forall d b, desc_in_range d -> enc_desc d = Some b ->
+    exists payload, rd_walk 1 b = Some [(desc_tag d, payload)] /\ desc_decode (desc_tag d) payload = Some (values_of d).
+Proof. exact desc_decode_encode. Qed.
+
+(* a resource template of any number of in-range descriptors in any order, in both build modes: the Spec buffer decoder
+   finds a payload of the declared size with nothing left over, the Spec walker (any fuel of at least one unit per item)
+   tiles it into items, decoding the items gives the caller's values of every descriptor in order, and the item after
+   them is the end tag 79 00 *)
+Theorem c10_template_values_decode :
+  forall md ds b,
+    Forall desc_in_range ds ->
+    enc md (TResTemplate (map TDesc ds)) = Some b -> N.of_nat (length b) < 2 ^ 63 ->
+    exists payload items,
+      buffer_decode b = Some (N.of_nat (length payload), payload, []) /\
+      (forall fuel, (S (S (length ds)) <= fuel)%nat -> rd_walk fuel payload = Some (items ++ [(0x79, [0])])) /\
+      map decode_item items = map (fun d => Some (values_of d)) ds.
+Proof. exact template_decodes. Qed.
+
+(* two in-range descriptors that come out as the same bytes were built from the same values: a difference in any
+   caller-visible value shows in the output *)
+Theorem c10_descriptor_values_injective :
+  forall d1 d2 b,
+    desc_in_range d1 -> desc_in_range d2 -> enc_desc d1 = Some b -> enc_desc d2 = Some b -> values_of d1 = values_of d2.
+Proof. exact desc_values_injective. Qed.
+
+(* non-vacuity: an accepted descriptor with its reference bytes, and a range the reference and the model both refuse *)
+Example c10_is_reference_example :
+  enc_desc (DIrq 1 0 1 1 33) = Some [0x89; 6; 0; 0x0D; 1; 33; 0; 0; 0] /\
+  ref_desc (desc_to_sx (DIrq 1 0 1 1 33)) = Some [0x89; 6; 0; 0x0D; 1; 33; 0; 0; 0] /\
+  enc_desc (DAddr 64 0 0 1 0 0xFFFFFFFFFFFFFFFF None) = None /\
+  ref_desc (desc_to_sx (DAddr 64 0 0 1 0 0xFFFFFFFFFFFFFFFF None)) = None.
+Proof. vm_compute. repeat split. Qed.
+
+(* non-vacuity: a register descriptor with every argument at the top of its type walks and decodes to those arguments *)
+Example c10_values_decode_example :
+  match enc_desc (DReg 0xFF 0xFF 0xFF 0xFF 0xFFFFFFFFFFFFFFFF) with
+  | Some b => option_map (map decode_item) (rd_walk 1 b)
+  | None => None
+  end = Some [Some (VReg 0xFF 0xFF 0xFF 0xFF 0xFFFFFFFFFFFFFFFF)].
+Proof. vm_compute. reflexivity. Qed.
+
+(* non-vacuity: a template of all five kinds decodes back to the values it was built from, then the end tag *)
+Example c10_template_values_example :
+  match enc Checked (TResTemplate (map TDesc
+          [DMem32 1 0xE8000000 0x10000000; DIO 0x3F8 0x3FF 1 8; DAddr 64 0 3 1 0x800000000 0xFFFFFFFFF (Some 0x1000);
+           DIrq 1 0 1 1 33; DReg 0x7F 64 0 4 0xFED00000])) with
+  | Some b =>
+      match buffer_decode b with
+      | Some (size, payload, []) =>
+          if size =? N.of_nat (length payload) then option_map (map decode_item) (rd_walk (S (length payload)) payload) else None
+      | _ => None
+      end
+  | None => None
+  end = Some [Some (VMem32 1 0xE8000000 0x10000000);
+              Some (VIO 1 0x3F8 0x3FF 1 8);
+              Some (VAddr 64 0 0x0C 7 0 0x800000000 0xFFFFFFFFF 0x1000 0x800000000);
+              Some (VIrq 1 0 1 1 0 1 [33]);
+              Some (VReg 0x7F 64 0 4 0xFED00000);
+              Some (VEnd 0)].
+Proof. vm_compute. reflexivity. Qed.
+
+(* non-vacuity: descriptors differing in one caller value (the last byte-sized argument) have different values and
+   different bytes *)
+Example c10_values_injective_example :
+  enc_desc (DIO 0x3F8 0x3FF 1 8) = Some [0x47; 1; 0xF8; 3; 0xFF; 3; 1; 8] /\
+  enc_desc (DIO 0x3F8 0x3FF 1 9) = Some [0x47; 1; 0xF8; 3; 0xFF; 3; 1; 9] /\
+  values_of (DIO 0x3F8 0x3FF 1 8) <> values_of (DIO 0x3F8 0x3FF 1 9).
+Proof. vm_compute. repeat split. discriminate. Qed.
+
+Print Assumptions c10_descriptor_is_reference.
+Print Assumptions c10_descriptor_exchange_form.
+Print Assumptions c10_descriptor_values_decode.
+Print Assumptions c10_template_values_decode.
+Print Assumptions c10_descriptor_values_injective.
